@@ -172,6 +172,9 @@ def run(ctx):
                  (["in." + vext], vext, None),
                  (["-f", fsel, "-o", "o2." + oext, "in." + vext], fsel, "o2." + oext)]
         for args, want_fmt, path in plans:
+            if path and r.chance(1, 2):
+                # the output file already exists and is longer than what will be written: a stale earlier result
+                open(os.path.join(d, path), "wb").write(("# stale\n" + "stale: %s\n" % ("x" * 40)) .encode() * (20 + r.below(20)))
             rc, so, err = core.cli(os.path.join(ctx.bindir, "bkl"), args, d)
             data = so
             if rc == 0 and path:
